@@ -363,6 +363,16 @@ func splitDecls(s string) []string {
 	return append(parts, s[start:])
 }
 
+// propName normalises a property name: CSS property names are case-insensitive (DISPLAY is
+// display), custom properties (--myVar) are not.
+func propName(s string) string {
+	s = strings.TrimSpace(s)
+	if strings.HasPrefix(s, "--") {
+		return s
+	}
+	return strings.ToLower(s)
+}
+
 // parseDecls reads a declaration list `a: b; c: d`.
 func parseDecls(s string) []decl {
 	var out []decl
@@ -376,7 +386,7 @@ func parseDecls(s string) []decl {
 			out = append(out, decl{part, malformed})
 			continue
 		}
-		out = append(out, decl{strings.TrimSpace(part[:i]), strings.TrimSpace(part[i+1:])})
+		out = append(out, decl{propName(part[:i]), strings.TrimSpace(part[i+1:])})
 	}
 	return out
 }
@@ -845,7 +855,10 @@ func compare(e *expect, got map[string]string, order []string) string {
 				return fmt.Sprintf("style=%q: v-show condition is falsy, display:none is missing", got["style"])
 			}
 		case "shown":
-			if gm["display"] == "none" {
+			// a truthy v-show adds nothing and takes nothing away: a display declared by the style
+			// itself (even display:none) is compared with the other declarations below
+			_, declared := e.style["display"]
+			if !declared && !e.propFree["display"] && !e.styleFree && gm["display"] == "none" {
 				return fmt.Sprintf("style=%q: v-show condition is truthy, display:none must not be added", got["style"])
 			}
 		}
